@@ -130,6 +130,26 @@ pub fn run(out: &mut Out, thorough: bool, seed: u64, _extra: &[String]) {
                     if d == want { out.raw(&format!("!OK galois_slots k={} step={} # rot-{}", k, st, cls)); }
                     else { out.raw(&format!("!FAIL galois_slots {} {} step={} {} :: automorphism of step does not rotate rows left by step (0 = row swap) # rot-{}", k, t, st, fl(&v), cls)); }
                 }
+                // STRUCTURED slot vectors (constant, per-row constant, all zero, stride masks, periodic rows, sparse): their encodings have
+                // exact zero coefficients — the images must still be polynomials over Z_t (every coefficient below t) and decode to the
+                // permuted matrix; the row swap (step 0, element 2N-1) and the shortest rotations always, further steps sampled
+                let mut svs: Vec<(String, Vec<u64>)> = vec![("const".into(), vec![1 + r.below(t - 1); n]), ("rowconst".into(), { let (a, b) = (r.below(t), r.below(t)); (0..n).map(|i| if i < row { a } else { b }).collect() })];
+                for kind in [0u64, 1, 5, 6, 7] { svs.push((format!("kind{}", kind), { let mut x = slot_vec(&mut r, n, t, kind); x.resize(n, 0); x })); }
+                for (nm, sv) in svs {
+                    let ps = enc.encode_new(&sv);
+                    let zeros = ps.data().iter().filter(|&&c| c == 0).count();
+                    let mut sts: Vec<isize> = vec![0, 1, -1]; if row > 2 { sts.push(r.range(2, row as u64 - 1) as isize); sts.push(-(r.range(2, row as u64 - 1) as isize)); }
+                    if row <= 2 { sts.retain(|s| s.unsigned_abs() < row || *s == 0); }
+                    for st in sts {
+                        let g = tool.get_elt_from_step(st);
+                        let mut res = vec![0xDEAD_BEEF_0BAD_F00Du64; n]; tool.apply(ps.data(), g, &tm, &mut res);
+                        let in_range = res.iter().all(|&c| c < t);
+                        let d = if in_range { let mut pr = Plaintext::new(); pr.resize(n); pr.data_mut().copy_from_slice(&res); std::panic::catch_unwind(std::panic::AssertUnwindSafe(|| enc.decode_new(&pr))).ok() } else { None };
+                        let want = if st == 0 { swap_rows(&sv) } else { rot_rows(&sv, st) };
+                        if d.as_ref() == Some(&want) { out.raw(&format!("!OK galois_slots_structured k={} {} step={} zero-coefficients={} # rot-struct-{}", k, nm, st, zeros, cls)); }
+                        else { out.raw(&format!("!FAIL galois_slots_structured {} {} step={} elt={} {} :: {} # rot-struct-{}", k, t, st, g, fl(&sv), if !in_range { "the image has a coefficient >= t: not a polynomial over Z_t" } else { "automorphism of step does not rotate rows left by step (0 = row swap)" }, cls)); }
+                    }
+                }
             }
             let _ = rep;
         }
